@@ -700,6 +700,25 @@ impl Inc {
         Ok(json!({"replayed": replayed, "markers": markers, "others": others, "events": events}))
     }
 
+    /// Crash sweep of `publish`: the publish future is polled `k` times (every poll after the first
+    /// happens because the future was woken, i.e. after a bit of progress) and then dropped; the
+    /// caller crashes the incarnation right afterwards. Reaches the await points of the forge that
+    /// have no schedule point, e.g. between two transactions.
+    pub async fn poll_publish(&mut self, k: u64) -> Result<Value, String> {
+        let tx = self.tx.clone();
+        let fut: std::pin::Pin<Box<dyn Future<Output = Result<String, String>> + Send>> = Box::pin(async move {
+            tx.publish("me-0".to_string())
+                .await
+                .map(|f| f.hash().to_string())
+                .map_err(|e| e.to_string())
+        });
+        let r = PollLimit { fut, left: k }.await;
+        Ok(match r {
+            Some(res) => json!({"done": true, "ok": res.is_ok(), "error": res.err()}),
+            None => json!({"done": false}),
+        })
+    }
+
     /// Lock-step was lost (the code took a different step than the specification): give up
     /// schedule control, let everything run and report what the application receives, so that the
     /// caller can still judge the replay at property level.
@@ -919,4 +938,26 @@ pub async fn observe_store(store: &SqliteStore, ids: &Ids, gate: &Gate) -> Resul
         "assoc": assoc,
         "parked": {"st": gate.parked("st"), "pub": gate.parked("pub"), "app": gate.parked("app")},
     }))
+}
+
+/// Polls the inner future at most `left` times; `None` if it was still pending after the last one.
+struct PollLimit<T> {
+    fut: std::pin::Pin<Box<dyn Future<Output = T> + Send>>,
+    left: u64,
+}
+
+impl<T> Future for PollLimit<T> {
+    type Output = Option<T>;
+
+    fn poll(mut self: std::pin::Pin<&mut Self>, cx: &mut std::task::Context<'_>) -> std::task::Poll<Option<T>> {
+        if self.left == 0 {
+            return std::task::Poll::Ready(None);
+        }
+        self.left -= 1;
+        match self.fut.as_mut().poll(cx) {
+            std::task::Poll::Ready(v) => std::task::Poll::Ready(Some(v)),
+            std::task::Poll::Pending if self.left == 0 => std::task::Poll::Ready(None),
+            std::task::Poll::Pending => std::task::Poll::Pending,
+        }
+    }
 }
